@@ -848,13 +848,36 @@ def runEv' (env : Array (List Inp)) : Ev → M (List Inp)
     runOut cls mode (← resolve env bus) (← chans.mapM (resolve env))
   | e => runEv env e
 
-def runProg (evs : List Ev) : M Def := do
+/-- everything the translation validator needs besides the emitted definition -/
+structure BuildInfo where
+  objs0 : List Obj            -- object heap after the constructor calls, before optimisation
+  children0 : List Nat        -- `_children` at that moment
+  origins : List Nat          -- object id of each emitted unit, in emitted order
+  evObjs : List (List Nat)    -- objects created by each event (in creation order)
+deriving Repr
+
+def runProgInfo (evs : List Ev) : M (Def × BuildInfo) := do
   let mut env : Array (List Inp) := #[]
+  let mut evObjs : List (List Nat) := []
   for e in evs do
+    let n0 := (← get).objs.size
     env := env.push (← runEv' env e)
-  finishBuild
+    let n1 := (← get).objs.size
+    evObjs := evObjs ++ [(List.range (n1 - n0)).map (· + n0)]
+  let s ← get
+  let objs0 := s.objs.toList
+  let children0 := s.children.toList.filterMap id
+  let d ← finishBuild
+  let origins := (← get).children.toList.filterMap id
+  pure (d, { objs0 := objs0, children0 := children0, origins := origins, evObjs := evObjs })
+
+def runProg (evs : List Ev) : M Def := do
+  pure (← runProgInfo evs).1
 
 def compile (evs : List Ev) : Except Err Def :=
   (runProg evs).run' {}
+
+def compileInfo (evs : List Ev) : Except Err (Def × BuildInfo) :=
+  (runProgInfo evs).run' {}
 
 end Sc3Verif.C01
